@@ -830,6 +830,12 @@ func costFn(scope, name string) func(graphql.FieldCostContext) graphql.FieldCost
 
 var directSchema *graphql.Schema
 
+// thorough tier: C04's whole ValidateDocument model is run on the single-field projections of one
+// validated case in four only (it dominates the model's running time); quick tier: on all of them
+var thoroughTier bool
+
+func projFlag(q string) sexp.Node { return sexp.T("proj", sexp.Bool(!thoroughTier || len(q)%4 == 0)) }
+
 // the calls the cost functions of the direct schema receive, in order: (label, user context value,
 // argument map) — the cost functions are harness code, so what they are handed is observable
 var callLog []sexp.Node
@@ -1345,7 +1351,7 @@ func directCase(d *doc, opName string, vars map[string]interface{}, dc graphql.F
 		sexp.T("ops", d.opsSexp()), sexp.T("frags", d.fragsSexp()), sexp.T("max", zint(max)),
 		sexp.T("conns", sexp.L()), sexp.T("observed", observed), sexp.T("std", sexp.Int(std)),
 		sexp.T("env", envSexp()), sexp.T("xvars", xvarsSexp(d, vars)), sexp.T("calls", sexp.L(calls...)),
-		sexp.T("varshape", sexp.Sym(directShape(vars))), sexp.T("query", sexp.Str(q)))
+		sexp.T("varshape", sexp.Sym(directShape(vars))), projFlag(q), sexp.T("query", sexp.Str(q)))
 }
 
 func apiShape(shape string, vars map[string]interface{}) string {
@@ -2143,7 +2149,7 @@ func runAPI(d *doc, vars map[string]interface{}, shape, route string, a *apiUnde
 		sexp.T("ops", d.opsSexp()), sexp.T("frags", d.fragsSexp()), sexp.T("max", sexp.Int(-1)),
 		sexp.T("conns", sexp.L(conns...)), sexp.T("observed", observed),
 		sexp.T("timed", sexp.Bool(strings.Contains(q, ": timed("))),
-		sexp.T("varshape", sexp.Sym(apiShape(shape, vars))), sexp.T("query", sexp.Str(q)))
+		sexp.T("varshape", sexp.Sym(apiShape(shape, vars))), projFlag(q), sexp.T("query", sexp.Str(q)))
 }
 
 // ---------------------------------------------------------------------------------------------
@@ -2236,6 +2242,7 @@ func apiVarDoc(k varKind, last bool) *doc {
 func main() {
 	directSchema = buildDirectSchema()
 	hx.Main(func(h *hx.H) {
+		thoroughTier = h.Thorough()
 		one := graphql.FieldCost{Resolver: 1}
 		limits := func(r *rng.R) func(int) int { return func(a0 int) int { return pickLimit(r, a0) } }
 
